@@ -10,6 +10,33 @@ NOTES = ("All checks: `harness/check.py Cxx`. Each run re-extracts Generated/*.l
 NOT_APPLICABLE = {}
 
 CHECKS = {
+    "C04": {
+        "text": ("Lean model of collect_fields (with the _seen_fragments quirk), _skip_selection, _fragment_type_applies, execute_fields, resolve_field, complete_value, "
+                 "resolve_type and the error accumulator, and the spec's CollectFields/ExecuteSelectionSet/CompleteValue: skip_include, alias_merge, keys_document_order, "
+                 "siblings_undisturbed, abstract_possible_type, local null/error lemmas, exec_pure (possible-types cache = stateless function after any history), "
+                 "exec_refines_spec_partial (exact equality model = spec on documents without named spreads; quirk witness machine-checked). Tied by ordered-data / "
+                 "error-multiset correspondence real executor vs model vs Lean spec on generated schemas, valid operations, worlds and request histories."),
+        "note": ("Trusted: Lean kernel; generators; argument/variable coercion computed by the real code (opaque here, C07); introspection fields, async executor and "
+                 "hooks not in this model. Refinement with named fragment spreads and the global null-error bijection are unproved (correspondence only)."),
+        "technique": "Lean 4 proof (executor model vs spec) + world-resolver correspondence",
+    },
+    "C05": {
+        "text": ("validated_no_internal_error_partial (collect_fields never takes an internal branch under the declarative ValidDoc), validated_shape / validated_shape_field "
+                 "(every computed value has the shape of its declared type, unconditionally) on the executor model; tied by an adversarial stream of invalid/mutated "
+                 "documents: validate_ast must return; accepted => ValidDoc (Lean) and execution under typed worlds raises no internal exception and has the schema shape."),
+        "note": ("Trusted: Lean kernel; generators. The executeFields half of validated_no_internal_error is unproved; the 26 rules themselves belong to C06. "
+                 "Known finding V8 (`@include(if: [true])` passes validation and raises CoercionError at execution)."),
+        "technique": "Lean 4 proof (type soundness lemmas) + adversarial validate/execute oracle",
+    },
+    "C07": {
+        "text": ("Lean model of coerce_value / value_from_ast / coerce_variable_values / coerce_argument_values / scalar parsers with the Int range test and the Float "
+                 "finiteness guard TRANSLATED from scalars.py each run: variable_sound, literal_sound, variables_sound, arguments_sound (=> Conforms), int_full_range, "
+                 "literal_variable_equiv (same outcome on both routes, recursive input objects included), omission/wrapping/rejection theorems, floatGuard_spec; all full. "
+                 "Tied by correspondence on all type expressions x literals x JSON values x provided/omitted/null and by the kwargs seen by recording resolvers in real runs "
+                 "(incl. divergent interface implementations sharing one field node)."),
+        "note": "Trusted: Lean kernel; translator; Python int()/float() parsing enters as harness-observed annotations; fuel universally quantified; VarsFit is a hypothesis.",
+        "technique": "Lean 4 proof (coercion soundness + route equivalence) + source-translated range tests + resolver-kwargs correspondence",
+    },
     "C01": {
         "text": ("Lexer part: Lean model of Lexer.__next__/_read_* and index_to_loc/highlight_location with theorems error_in_range_partial "
                  "(+ machine-checked refutation of the full statement: position len+1 pinned by the suite, finding L6), render_total, "
